@@ -1,7 +1,14 @@
 import PyIpmi.Props.C12
 #print axioms PyIpmi.Props.C12.constants_ok
+#print axioms PyIpmi.Props.C12.source_variant
+#print axioms PyIpmi.Props.C12.floor_ok
 #print axioms PyIpmi.Props.C12.get_entry_exact
 #print axioms PyIpmi.Props.C12.entries_exact
 #print axioms PyIpmi.Props.C12.empty_log_nothing
 #print axioms PyIpmi.Props.C12.get_and_clear_atomic
+#print axioms PyIpmi.Props.C12.get_and_clear_repeats_both_steps
 #print axioms PyIpmi.Props.C12.get_and_clear_same_reservation
+#print axioms PyIpmi.Props.C12.get_and_clear_unbounded_as_shipped
+#print axioms PyIpmi.Props.C12.entry_view_system
+#print axioms PyIpmi.Props.C12.entry_view_oem
+#print axioms PyIpmi.Props.C12.entry_decoding_strict
